@@ -11,6 +11,45 @@ package keeper
 //@   trusted
 //@   ensures p == $distParams
 //@
+//@ // ---- C14 / C01: a payout either moves exactly the integer part of the remains (and keeps the fraction), or changes nothing ----
+//@ spec func MAIN() str = modaddr("distributor_main_account")
+//@ pred remainsTruncated(state, r0) = forall d: str :: {state.Remains[d]} state.Remains[d] == r0[d] - truncInt(r0[d]) * P
+//@ func (k Keeper) burnCoins(ctx, state)
+//@   requires state != nil
+//@   modifies $bal, $supply, *state
+//@   ensures state.Account == old(state.Account) && state.Burn == old(state.Burn)
+//@   // failure: nothing changed; success: supply and main-account balance drop by the integer part, the fraction stays booked
+//@   ensures ($bal == old($bal) && $supply == old($supply) && state.Remains == old(state.Remains))
+//@     || (remainsTruncated(state, old(state.Remains))
+//@         && (forall d: str :: {$supply[d]} $supply[d] == old($supply[d]) - truncInt(old(state.Remains[d])))
+//@         && (forall d: str :: {$bal[MAIN()][d]} $bal[MAIN()][d] == old($bal[MAIN()][d]) - truncInt(old(state.Remains[d])))
+//@         && (forall a: str :: {$bal[a]} a != MAIN() ==> $bal[a] == old($bal[a])))
+//@   prop C01 C14
+//@ func (k Keeper) sendCoinsToModuleAccount(ctx, state)
+//@   requires state != nil && state.Account != nil && modaddr(state.Account.Id) != MAIN()
+//@   modifies $bal, *state, $accTag, $accSeq, $accPub
+//@   ensures state.Account == old(state.Account) && state.Burn == old(state.Burn) && $supply == old($supply)
+//@   ensures ($bal == old($bal) && state.Remains == old(state.Remains))
+//@     || (remainsTruncated(state, old(state.Remains))
+//@         && (forall d: str :: {$bal[MAIN()][d]} $bal[MAIN()][d] == old($bal[MAIN()][d]) - truncInt(old(state.Remains[d])))
+//@         && (forall d: str :: {$bal[modaddr(state.Account.Id)][d]} $bal[modaddr(state.Account.Id)][d] == old($bal[modaddr(state.Account.Id)][d]) + truncInt(old(state.Remains[d])))
+//@         && (forall a: str :: {$bal[a]} a != MAIN() && a != modaddr(state.Account.Id) ==> $bal[a] == old($bal[a])))
+//@   prop C14 C01
+//@ func (k Keeper) sendCoinsToBaseAccount(ctx, state)
+//@   requires state != nil && state.Account != nil && fromBech32(state.Account.Id) != MAIN()
+//@   modifies $bal, *state, $accTag, $accSeq, $accPub
+//@   ensures state.Account == old(state.Account) && state.Burn == old(state.Burn) && $supply == old($supply)
+//@   ensures ($bal == old($bal) && state.Remains == old(state.Remains))
+//@     || (remainsTruncated(state, old(state.Remains))
+//@         && (forall d: str :: {$bal[MAIN()][d]} $bal[MAIN()][d] == old($bal[MAIN()][d]) - truncInt(old(state.Remains[d])))
+//@         && (forall d: str :: {$bal[fromBech32(state.Account.Id)][d]} $bal[fromBech32(state.Account.Id)][d] == old($bal[fromBech32(state.Account.Id)][d]) + truncInt(old(state.Remains[d])))
+//@         && (forall a: str :: {$bal[a]} a != MAIN() && a != fromBech32(state.Account.Id) ==> $bal[a] == old($bal[a])))
+//@   prop C14 C01
+//@ func calculatePercentage(sharePercent, coinsToDistributeDec) (res)
+//@   requires !sharePercent.IsNil()
+//@   ensures (forall d: str :: {res[d]} res[d] == 0) || (forall d: str :: {res[d]} res[d] == truncInt(coinsToDistributeDec[d] * sharePercent))
+//@   prop C04
+
 //@ // ---- C13: only governance changes the parameters; what is stored was validated; a rejected update changes nothing ----
 //@ spec func dpKey() str = global("types.ParamsKey")
 //@ pred storedDistParamsOK(k) = $kvHas[storeOf(k.storeKey)][dpKey()] && distParamsValid(decSnap("types.Params", $kvVal[storeOf(k.storeKey)][dpKey()]))
